@@ -282,3 +282,22 @@ func Wire(m *bcproto.Message) []byte {
 	}
 	return bz
 }
+
+// Restart is what a node does when it boots on the stores as they are now (also in the middle of a block sync:
+// node.NewNode always builds the consensus state from the saved state): consensus.NewState(loaded state).
+// It returns the panic text ("" = fine), the state height and the ground-truth cause for the seen commit there.
+func Restart(chain *c13kit.Chain, node *c13kit.Node) (panicText string, height int64, cause string) {
+	st, err := node.StateStore.Load()
+	if err != nil {
+		return "state store: " + err.Error(), 0, "state-unloadable"
+	}
+	height = st.LastBlockHeight
+	if height == 0 {
+		return "", 0, ""
+	}
+	cause = chain.BadSlotCause(height, node.BlockStore.LoadSeenCommit(height))
+	panicText = safely(func() {
+		_ = consensus.NewState(conf(), st, node.BlockExec, node.BlockStore, mpmock.Mempool{}, sm.EmptyEvidencePool{})
+	})
+	return
+}
